@@ -136,6 +136,14 @@ def okU : Except Err Unit → Bool
   | .ok _ => true
   | .error _ => false
 
+/-! ### select -/
+
+/-- the leaves of `select(*keys)` (out of place): exactly the leaves of the receiver that sit at or below one of the keys -/
+def SelectsLeaves (keys : List Path) (kids rk : Kids) : Prop :=
+  ∀ (p : Path) (nt : Bool) (v : Nat), p ≠ [] →
+    (lookup p (.node rk) = some (.leaf nt v) ↔
+      lookup p (.node kids) = some (.leaf nt v) ∧ ∃ q ∈ keys, isPrefix q p = true)
+
 /-! ### exclude -/
 
 /-- the tails of the keys that start with `k` and go deeper -/
